@@ -499,6 +499,18 @@ def generate(tier, rng):
             for _ in range(ninc):
                 lab, sa, sb = incompat_shapes(rng)
                 emit(make_case(op, sym, k, sa, sb, rng, "incompatible", lab, budget=8, boundary_p=0.2))
+    # 3b. `&&` / `||` with a longer lhs whose extra elements decide the result alone (Rust short-circuit: the rhs is
+    #     not read beyond its end, so the index-loop kernel does not panic) — and the same with one undecided element
+    for op, sym, dec in (("and", "&&", "false"), ("or", "||", "true")):
+        other = "true" if dec == "false" else "false"
+        for shp in ([(1, None), (None, 1)] if quick else [(1, None), (None, 1)] * 4):
+            n, m = sorted(pick_dims(rng))
+            sa = (1, m) if shp[0] == 1 else (m, 1)
+            sb = (1, n) if shp[0] == 1 else (n, 1)
+            head = [rng.choice(["true", "false"]) for _ in range(n)]
+            lb = [rng.choice(["true", "false"]) for _ in range(n)]
+            emit(make_case(op, sym, "bool", sa, sb, rng, "incompatible", "short-circuit", litsA=head + [dec] * (m - n), litsB=lb))
+            emit(make_case(op, sym, "bool", sa, sb, rng, "incompatible", "short-circuit-miss", litsA=head + [dec] * (m - n - 1) + [other], litsB=lb))
     # 4. kinds without an arm: scalar and matrix forms must both be rejected
     for op, sym in BINOPS + UNOPS:
         un = op in ("neg", "not")
